@@ -381,6 +381,47 @@ func H_T2_Precision() {
 	}
 }
 
+var valuePool = []float64{0, 5, -5, 0.5, 999999, 1000000, 1234567, -98765432, 25000, 123456.7, 1e21, 1e-5, 2.5e-7}
+
+// H_T2_Values: the documented directives on a pool of magnitudes around the
+// points where a rendering changes form (10^6, 10^21, 10^-5), compared with the
+// documented rendering character by character.
+func H_T2_Values() {
+	x := valuePool[zv.Choose(len(valuePool))]
+	var dir, want string
+	switch zv.Choose(8) {
+	case 0:
+		dir, want = "{#}", fmt.Sprintf("%.6g", x)
+	case 1:
+		dir, want = "{#+}", fmt.Sprintf("%+.6g", x)
+	case 2:
+		dir, want = "{#.2}", fmt.Sprintf("%.2f", x)
+	case 3:
+		dir, want = "{#.0}", fmt.Sprintf("%.0f", x)
+	case 4:
+		dir, want = "{#.3E}", fmt.Sprintf("%.3E", x)
+	case 5:
+		dir, want = "{#.1%}", fmt.Sprintf("%.1f", x*100)+"%"
+	case 6:
+		dir, want = "{#+.2}", fmt.Sprintf("%+.2f", x)
+	default:
+		dir, want = "{}", ""
+	}
+	res, err, p := run("输入T、X\n输出 T % 【X】", r.ElementMap{"T": value.NewString("值" + dir + "。"), "X": value.NewNumber(x)})
+	zv.Assert(p == nil && err == nil, "values: formats")
+	rs, ok := res.(*value.String)
+	zv.Assert(ok, "values: result is a text")
+	if dir == "{}" {
+		zv.Assert(strings.HasPrefix(rs.GetValue(), "值") && strings.HasSuffix(rs.GetValue(), "。"), "values: {} keeps the surrounding text")
+		return
+	}
+	if rs.GetValue() != "值"+want+"。" {
+		zv.Observe("got", rs.GetValue())
+		zv.Observe("want", "值"+want+"。")
+	}
+	zv.Assert(rs.GetValue() == "值"+want+"。", "the documented rendering of "+dir)
+}
+
 // H_T2_Structured: text{#‹directive of up to 3 symbolic characters›}text{} .
 func H_T2_Structured() {
 	K := 3
